@@ -12,29 +12,34 @@
 (* PART 3  the read programs: a line-by-line transcription of the code as  *)
 (*         a step function Step(c, s): one step = one storage call (or one *)
 (*         control decision); source ranges are noted at each arm.         *)
-(*           metadata_manager.py:120-134 refresh, :569-574, :576-620,      *)
-(*                               :622-633 _current_version_info            *)
-(*           transaction.py:1224-1286 _get_all_data_files                  *)
-(*           file_manager.py:419-475 read_manifest_list_file               *)
-(*           file_manager.py:275-366 read_manifest_file                    *)
-(*           transaction.py:870-881 row_count, :945-996 _scan_table,       *)
-(*             :897-943 _read_datafile_table, :1066-1161 scan_batches /    *)
-(*             _iter_file_batches, :1163-1186 iter_records,                *)
-(*             :888-895 _resolve_verify_checksums, :789-791 current_snapshot*)
+(*           metadata_manager.py:120-134 refresh, :577-582, :584-628,      *)
+(*                               :630-641 _current_version_info            *)
+(*           transaction.py:1244-1306 _get_all_data_files                  *)
+(*           file_manager.py:423-481 read_manifest_list_file               *)
+(*           file_manager.py:275-370 read_manifest_file                    *)
+(*           transaction.py:890-901 row_count, :965-1016 _scan_table,      *)
+(*             :917-963 _read_datafile_table, :1086-1181 scan_batches /    *)
+(*             _iter_file_batches, :1183-1206 iter_records,                *)
+(*             :908-915 _resolve_verify_checksums, :809-811 current_snapshot*)
 (* PART 4  the REFERENCE rule, written from the property statement only    *)
 (*         (it never looks at the programs): which damage obliges the read *)
 (*         to raise, and what a finished read may return.                  *)
 (*                                                                         *)
-(* Named flags model the code AS IT IS (TRUE) or a repair (FALSE):         *)
-(*   RecoverOnMissingTarget  metadata_manager.py:628-633: a hint that      *)
+(* Named flags.  The code AS IT IS is: RecoverOnMissingTarget = TRUE,       *)
+(* JsonObjectIsEmpty = FALSE, ChecksumEnforced = TRUE, VerifyDefault = TRUE.*)
+(*   RecoverOnMissingTarget  metadata_manager.py:636-641: a hint that      *)
 (*       names a missing metadata file silently falls back to scanning     *)
-(*       (DESIGN S12) -> an older version is served as current.            *)
-(*   JsonObjectIsEmpty       file_manager.py:346 / :460: the JSON fallback *)
-(*       reads `.get("files", [])` / `.get("manifests", [])`, so ANY JSON  *)
-(*       object is accepted as an EMPTY manifest / manifest list.          *)
-(*   ChecksumEnforced        transaction.py:922-926 / :1140-1143 raise on  *)
+(*       (DESIGN S12) -> an older version is served as current.  OPEN      *)
+(*       finding (collides with C10's recovery rule); FALSE = a repair.    *)
+(*   JsonObjectIsEmpty       file_manager.py:350 / :466.  Before /repo     *)
+(*       commit 122cfe9 the JSON fallback read `.get("files", [])` /       *)
+(*       `.get("manifests", [])`, so ANY JSON object was accepted as an    *)
+(*       EMPTY manifest / manifest list (TRUE).  The fix indexes the key   *)
+(*       (KeyError -> ValueError): FALSE is the faithful model; TRUE is    *)
+(*       kept only as an anti-vacuity companion that must fail.            *)
+(*   ChecksumEnforced        transaction.py:942-946 / :1160-1163 raise on  *)
 (*       mismatch (FALSE = "only logged": used for anti-vacuity).          *)
-(*   VerifyDefault           transaction.py:893 default "true".            *)
+(*   VerifyDefault           transaction.py:913 default "true".            *)
 (***************************************************************************)
 EXTENDS Integers, Sequences, FiniteSets, TLC
 
@@ -98,7 +103,7 @@ Parses(c, f)      == D(c, f) \notin UnparseableClasses /\ Present(c, f)
 BytesIntact(c, f) == D(c, f) \in {"ok", "transient"}
 Damaged(c)        == {f \in AllFiles : D(c, f) # "ok"}
 
-\* transaction.py:888-895
+\* transaction.py:908-915
 Verify(c) == IF c.vopt = "default" THEN VerifyDefault ELSE c.vopt = "on"
 
 (* ------------------------------ PART 3 --------------------------------- *)
@@ -129,7 +134,7 @@ Return(s)      == [s EXCEPT !.pc = s.ret]
 
 MaxOf(S) == CHOOSE x \in S : \A y \in S : x >= y
 
-\* append the entries of q not yet present (transaction.py:1276-1284, de-duplication by path)
+\* append the entries of q not yet present (transaction.py:1296-1304, de-duplication by path)
 RECURSIVE AppendNew(_, _)
 AppendNew(acc, q) == IF q = <<>> THEN acc
                      ELSE AppendNew(IF Head(q) \in Rng(acc) THEN acc ELSE Append(acc, Head(q)), Tail(q))
@@ -138,7 +143,7 @@ RECURSIVE Flat(_)
 Flat(q) == IF q = <<>> THEN <<>> ELSE Head(q) \o Flat(Tail(q))
 
 \* one failing data file: the sequential paths raise at once; the parallel scan
-\* (transaction.py:989-992, list(executor.map(...))) lets every worker run and re-raises the
+\* (transaction.py:1009-1012, list(executor.map(...))) lets every worker run and re-raises the
 \* exception of the first failing file in list order.
 DataFail(c, s, why) ==
   IF c.api = "scan_par"
@@ -163,64 +168,64 @@ Step(c, s) ==
     [] s.pc = "opened" ->                                          \* iceberg.py:73-74
         IF s.meta = "none" THEN Raise(s, "ValueError(No Iceberg table found)") ELSE Goto(s, "api")
     [] s.pc = "api" ->
-        \* every API starts with current_snapshot() -> refresh (transaction.py:789-791, :1231)
+        \* every API starts with current_snapshot() -> refresh (transaction.py:809-811, :1251)
         Refresh(s, IF c.api = "cursnap" THEN "cs_done" ELSE "g_snap")
 
-    (* ---- refresh(): metadata_manager.py:120-134, :622-633, :569-574 ---- *)
-    [] s.pc = "r_exists_hint" ->                                   \* :571 storage.exists(HINT)
+    (* ---- refresh(): metadata_manager.py:120-134, :630-641, :577-582 ---- *)
+    [] s.pc = "r_exists_hint" ->                                   \* :579 storage.exists(HINT)
         LET t == Tick(s, Hint) IN
         IF Fires(c, s, Hint) THEN Raise(t, "OSError(transient)")
         ELSE IF ~Present(c, Hint) THEN Goto(t, "r_list") ELSE Goto(t, "r_read_hint")
-    [] s.pc = "r_read_hint" ->                                     \* :573-574 read + parse
+    [] s.pc = "r_read_hint" ->                                     \* :581-582 read + parse
         LET t == Tick(s, Hint) IN
         IF Fires(c, s, Hint) THEN Raise(t, "OSError(transient)")
         ELSE IF D(c, Hint) = "garbage" THEN Goto(t, "r_list")      \* unparseable -> None -> recovery
         ELSE [t EXCEPT !.target = CurMeta, !.pc = "r_exists_meta"]
-    [] s.pc = "r_exists_meta" ->                                   \* :631 exists(metadata/<named>)
+    [] s.pc = "r_exists_meta" ->                                   \* :639 exists(metadata/<named>)
         LET t == Tick(s, s.target) IN
         IF Fires(c, s, s.target) THEN Raise(t, "OSError(transient)")
         ELSE IF Present(c, s.target) THEN Goto(t, "r_read_meta")
-        ELSE IF RecoverOnMissingTarget THEN Goto(t, "r_list")      \* :633 silent fallback (S12)
+        ELSE IF RecoverOnMissingTarget THEN Goto(t, "r_list")      \* :641 silent fallback (S12)
         ELSE Raise(t, "metadata file named by the hint is missing")
-    [] s.pc = "r_list" ->                                          \* :576-620 highest version on disk
+    [] s.pc = "r_list" ->                                          \* :584-628 highest version on disk
         LET present == {i \in 1..Len(Metas) : Present(c, Metas[i])} IN
         IF present = {} THEN Return([s EXCEPT !.meta = "none"])    \* refresh() returns None
         ELSE [s EXCEPT !.target = Metas[MaxOf(present)], !.pc = "r_read_meta"]
-    [] s.pc = "r_read_meta" ->                                     \* :134/:375-378 read_json + _dict_to_metadata
+    [] s.pc = "r_read_meta" ->                                     \* :134/:383-386 read_json + _dict_to_metadata
         LET f == s.target  t == Tick(s, f) IN
         IF Fires(c, s, f) THEN Raise(t, "OSError(transient)")
         ELSE IF ~Present(c, f) THEN Raise(t, "FileNotFoundError")
         ELSE IF ~Parses(c, f) THEN Raise(t, "JSONDecodeError/UnicodeDecodeError/KeyError")
         ELSE Return([t EXCEPT !.meta = Src(c, f)])
 
-    (* ---- current_snapshot(): transaction.py:789-791 ---- *)
+    (* ---- current_snapshot(): transaction.py:809-811 ---- *)
     [] s.pc = "cs_done" -> Done(s, IF s.meta = "none" THEN <<>> ELSE <<s.meta>>)
 
-    (* ---- _get_all_data_files(): transaction.py:1224-1286 ---- *)
+    (* ---- _get_all_data_files(): transaction.py:1244-1306 ---- *)
     [] s.pc = "g_snap" ->
         IF s.meta = "none"
-        THEN [s EXCEPT !.files = <<>>, !.pc = "a_files"]           \* :1232-1244 "empty table"
+        THEN [s EXCEPT !.files = <<>>, !.pc = "a_files"]           \* :1252-1264 "empty table"
         ELSE [s EXCEPT !.list = ListOf[s.meta], !.pc = "g_exists_list"]
-    [] s.pc = "g_exists_list" ->                                   \* :1250-1254
+    [] s.pc = "g_exists_list" ->                                   \* :1270-1274
         ExistsStep(c, s, f_list, "RuntimeError(missing manifest list)", "g_exists_list2")
-    [] s.pc = "g_exists_list2" ->                                  \* file_manager.py:421-422
+    [] s.pc = "g_exists_list2" ->                                  \* file_manager.py:425-426
         ExistsStep(c, s, f_list, "FileNotFoundError", "g_open_list")
-    [] s.pc = "g_open_list" ->                                     \* file_manager.py:425-452 Avro
+    [] s.pc = "g_open_list" ->                                     \* file_manager.py:429-456 Avro
         LET t == Tick(s, f_list) IN
         IF Fires(c, s, f_list) \/ ~Parses(c, f_list)
         THEN Goto(t, "g_json_list")      \* (ValueError, IndexError, StopIteration, OSError) -> JSON fallback
                                          \* (an EOFError from some cut points is not caught: raises directly)
         ELSE [t EXCEPT !.mans = MansOf[Src(c, f_list)], !.mi = 1, !.files = <<>>, !.pc = "g_man"]
-    [] s.pc = "g_json_list" ->                                     \* file_manager.py:454-475 JSON fallback
+    [] s.pc = "g_json_list" ->                                     \* file_manager.py:458-481 JSON fallback
         LET t == Tick(s, f_list) IN
         IF Fires(c, s, f_list) THEN Raise(t, "OSError(transient)")
         ELSE IF ~Present(c, f_list) THEN Raise(t, "FileNotFoundError")
         ELSE IF D(c, f_list) = "json_object" /\ JsonObjectIsEmpty
-        THEN [t EXCEPT !.mans = <<>>, !.mi = 1, !.files = <<>>, !.pc = "g_man"]   \* .get("manifests", [])
-        ELSE Raise(t, "ValueError(could not parse manifest list)")
-    [] s.pc = "g_man" ->                                           \* :1261 for manifest_ref in ...
+        THEN [t EXCEPT !.mans = <<>>, !.mi = 1, !.files = <<>>, !.pc = "g_man"]   \* pre-122cfe9: .get("manifests", [])
+        ELSE Raise(t, "ValueError(could not parse manifest list)")      \* :466 list_data["manifests"] -> KeyError -> :481
+    [] s.pc = "g_man" ->                                           \* :1281 for manifest_ref in ...
         IF s.mi > Len(s.mans) THEN Goto(s, "a_files") ELSE Goto(s, "g_exists_man")
-    [] s.pc = "g_exists_man" ->                                    \* :1268-1272
+    [] s.pc = "g_exists_man" ->                                    \* :1288-1292
         ExistsStep(c, s, f_man, "RuntimeError(missing manifest)", "g_exists_man2")
     [] s.pc = "g_exists_man2" ->                                   \* file_manager.py:277-278
         ExistsStep(c, s, f_man, "FileNotFoundError", "g_open_man")
@@ -229,40 +234,40 @@ Step(c, s) ==
         IF Fires(c, s, f_man) \/ ~Parses(c, f_man)
         THEN Goto(t, "g_json_man")
         ELSE [t EXCEPT !.files = AppendNew(s.files, DataOf[Src(c, f_man)]), !.mi = @ + 1, !.pc = "g_man"]
-    [] s.pc = "g_json_man" ->                                      \* file_manager.py:341-366 JSON fallback
+    [] s.pc = "g_json_man" ->                                      \* file_manager.py:341-370 JSON fallback
         LET t == Tick(s, f_man) IN
         IF Fires(c, s, f_man) THEN Raise(t, "OSError(transient)")
         ELSE IF ~Present(c, f_man) THEN Raise(t, "FileNotFoundError")
         ELSE IF D(c, f_man) = "json_object" /\ JsonObjectIsEmpty
-        THEN [t EXCEPT !.mi = @ + 1, !.pc = "g_man"]               \* .get("files", []) -> no entries
-        ELSE Raise(t, "ValueError(could not parse manifest)")
+        THEN [t EXCEPT !.mi = @ + 1, !.pc = "g_man"]               \* pre-122cfe9: .get("files", []) -> no entries
+        ELSE Raise(t, "ValueError(could not parse manifest)")           \* :350 manifest_data["files"] -> KeyError -> :370
 
     (* ---- the APIs after the file list is known ---- *)
     [] s.pc = "a_files" ->
-        IF c.api = "count"                                         \* transaction.py:880-881
+        IF c.api = "count"                                         \* transaction.py:900-901
         THEN Done(s, Flat([i \in 1..Len(s.files) |-> RowsOf[s.files[i]]]))   \* sum of record_count
-        ELSE IF s.files = <<>> THEN Done(s, <<>>)                  \* :970-971 / :1105-1106
-        ELSE IF c.filt # "none" THEN Refresh(s, "a_prune")         \* :978 / :1101 _get_current_schema -> refresh
+        ELSE IF s.files = <<>> THEN Done(s, <<>>)                  \* :990-991 / :1125-1126
+        ELSE IF c.filt # "none" THEN Refresh(s, "a_prune")         \* :998 / :1121 _get_current_schema -> refresh
         ELSE [s EXCEPT !.fi = 1, !.pc = "a_loop"]
-    [] s.pc = "a_prune" ->                                         \* :979-982 / :1102-1106
+    [] s.pc = "a_prune" ->                                         \* :999-1002 / :1122-1126
         LET kept == IF s.meta = "none" THEN s.files
                     ELSE SelectSeq(s.files, LAMBDA d : d \notin Pruned[c.filt]) IN
         IF kept = <<>> THEN Done(s, <<>>)
         ELSE [s EXCEPT !.files = kept, !.fi = 1, !.pc = "a_loop"]
-    [] s.pc = "a_loop" ->                                          \* :989-996 / :1136
+    [] s.pc = "a_loop" ->                                          \* :1009-1016 / :1156
         IF s.fi > Len(s.files)
         THEN IF s.failed THEN Raise(s, s.why)
              ELSE Done(s, IF IsGen(c.api) THEN s.out ELSE s.buf)
         ELSE Goto(s, IF Verify(c) THEN "d_read" ELSE "d_open")
 
-    (* ---- one data file: transaction.py:897-943 / :1136-1161 ---- *)
-    [] s.pc = "d_read" ->                                          \* verify: :921 / :1139 whole object + SHA-256
+    (* ---- one data file: transaction.py:917-963 / :1156-1181 ---- *)
+    [] s.pc = "d_read" ->                                          \* verify: :941 / :1159 whole object + SHA-256
         LET t == Tick(s, f_data) IN
         IF Fires(c, s, f_data) THEN DataFail(c, t, "OSError(transient)")
         ELSE IF ~Present(c, f_data) THEN DataFail(c, t, "FileNotFoundError")
         ELSE IF ~BytesIntact(c, f_data) /\ ChecksumEnforced THEN DataFail(c, t, "CorruptDataError")
         ELSE Goto(t, "d_parse")
-    [] s.pc = "d_open" ->                                          \* no verify: :938 / :1146 open_parquet_source
+    [] s.pc = "d_open" ->                                          \* no verify: :958 / :1166 open_parquet_source
         LET t == Tick(s, f_data) IN
         IF Fires(c, s, f_data) THEN DataFail(c, t, "OSError(transient)")
         ELSE IF ~Present(c, f_data) THEN DataFail(c, t, "FileNotFoundError")
@@ -284,7 +289,7 @@ Step(c, s) ==
         IN
         IF ~IsGen(c.api)
         THEN [s EXCEPT !.buf = @ \o sel, !.fi = @ + 1, !.pc = "a_loop"]
-        ELSE \* :1150-1161: one batch per row (batch_size 1) or per file; empty batches are not yielded
+        ELSE \* :1170-1181: one batch per row (batch_size 1) or per file; empty batches are not yielded
              [s EXCEPT !.out = @ \o sel,
                        !.ny = @ + (IF c.api = "batches_1" THEN Len(sel) ELSE IF sel = <<>> THEN 0 ELSE 1),
                        !.fi = @ + 1, !.pc = "a_loop"]
@@ -369,7 +374,8 @@ StepSane(c, s) == /\ s.status = "raise" => s.ans = <<>>
 (* ---- open findings, carved out by name (DESIGN section 8) ---- *)
 \* F1 (S12): the current metadata file is absent; recovery serves an older version (or "no table")
 KF_MetaAbsent(c) == D(c, CurMeta) = "absent"
-\* F2: a current list / manifest was replaced by a JSON object; it is read as an empty one
+\* F2 (FIXED by /repo 122cfe9): a current list / manifest replaced by a JSON object was read as an
+\* empty one.  Only the must-fail companion (JsonObjectIsEmpty = TRUE) still reaches this.
 KF_JsonObject(c) == \E f \in {CurList} \cup CurMans : D(c, f) = "json_object"
 \* inherent (C10's territory): pointer AND its target lost - nothing on storage records that the
 \* newer version ever existed
